@@ -38,7 +38,7 @@ pub fn def() -> CheckDef {
         cases: |t| if t == Tier::Quick { 600 } else { 30_000 },
         needs: |t| {
             let m = if t == Tier::Quick { 1 } else { 40 };
-            vec![("distinct_nontrivial", 100 * m), ("format_aeon", 50 * m), ("format_bnet", 20 * m), ("format_sbml", 30 * m), ("k_0", 20 * m), ("k_1", 20 * m), ("k_2", 20 * m), ("k_3", 20 * m), ("analysis_archives", 100 * m), ("sets_reloaded", 500 * m), ("large_entries_reloaded", 20 * m), ("single_formula_analyses", 100 * m)]
+            vec![("distinct_nontrivial", 100 * m), ("format_aeon", 50 * m), ("format_bnet", 20 * m), ("format_sbml", 30 * m), ("k_0", 20 * m), ("k_1", 20 * m), ("k_2", 20 * m), ("k_3", 20 * m), ("analysis_archives", 100 * m), ("sets_reloaded", 500 * m), ("large_entries_reloaded", 20 * m), ("single_formula_analyses", 100 * m), ("both_role_label_analyses", 20 * m)]
         },
         run,
         prelude: None,
@@ -464,6 +464,37 @@ fn run_inner(rng: &mut Rng, world: &World, k: u16, format: &str, dir: &str) -> C
                         }
                     }
                 }
+            }
+        }
+    }
+    // (2c) a label used BOTH as a proposition and as a domain, through the analysis with the archive of (1) as context
+    // (the archive was written for k spare sets; the analysis sizes its graph by the formula, so this needs k = 1)
+    if k == 1 && lib_sets.contains_key("p") {
+        use biodivine_hctl_model_checker::analysis::analyse_formula;
+        let ext = format!("(!{{x}} in %p%: (AX (%p% | {{x}})))");
+        let zip4 = format!("{dir}/both_roles.zip");
+        match libg::guarded(|| analyse_formula(&bn, ext.clone(), PrintOptions::NoPrint, Some(zip4.clone()), Some(zip_path.clone()))) {
+            Ok(Ok(())) => {
+                out.count("both_role_label_analyses");
+                let loaded4 = load_bdd_bundle(&zip4, sys.graph.symbolic_context());
+                let expect4 = call(|| mc::model_check_extended_formula_dirty(&ext, &sys.graph, &lib_sets));
+                if let (Ok(l4), Call::Ok(e4)) = (loaded4, expect4) {
+                    match l4.get("formula-0") {
+                        Some(s4) if s4.as_bdd() == e4.as_bdd() => {}
+                        _ => {
+                            out.violate("reloaded context differs in effect from the in-memory sets", format!("analyse_formula with the archive as context on `{ext}`: archived result differs from the in-memory evaluation"), detail("both roles"));
+                            return out;
+                        }
+                    }
+                }
+            }
+            Ok(Err(e)) => {
+                out.violate("analysis fails on valid formulae", format!("analyse_formula with a context archive on `{ext}`: {e}"), detail(&e));
+                return out;
+            }
+            Err(p) => {
+                out.violate(&libg::panic_signature(&p), format!("analyse_formula with a context archive panicked on `{ext}`: {p}"), detail(&p));
+                return out;
             }
         }
     }
